@@ -109,7 +109,7 @@ def run_index(ctx, case):
             elif form == 2:
                 idx = targets[0] if len(targets) == 1 else tuple(int(x) for x in targets)
             else:
-                idx = np.array(targets)
+                idx = np.array(targets) if rep % 2 == 0 else np.array(targets[::-1])[::-1]  # an index array, also as a negative-stride view with the same logical content
             psi_in = ref.with_layout(psi, lay_s)
             got = nq.sim.state.apply_gate(psi_in, op, idx)
             ctx.close(got, want, 1e-10, 'apply_gate = embedded operator', scale)
